@@ -13,6 +13,6 @@ for l in open('/verif/properties.jsonl'):
         print("QUANTIFIED OVER:", p['quantifier']['text']); print()
         print("ANCHORS:", json.dumps(p['anchors'], indent=1))
 PY
-  sed "s#/tmp/benignwork/@ID@#$d#g; s/@ID@/$id/g; s/@N@/$n/g" /verif/tools/benign_prompt.tmpl > $d/PROMPT.txt
+  sed "s#/tmp/benignwork/@ID@#$d#g; s/@ID@/$id/g; s/@N@/$n/g" ${BENIGN_PROMPT:-/verif/tools/benign_prompt.tmpl} > $d/PROMPT.txt
   git -C /repo worktree add -q --detach $d/wt HEAD
 done
